@@ -27,5 +27,7 @@ out = {
         "caught_by": caught,
     },
 }
+if len(sys.argv) > 5 and sys.argv[5] == "known_miss":
+    out["known_miss"] = True
 json.dump(out, open(os.path.join(dst, "meta.json"), "w"), indent=1)
 print("archived", dst)
